@@ -145,6 +145,24 @@ PROPS = {
                       "crediting one destination touches no other. K3 and K4 refuted by computed witnesses. The implementation's per-destination "
                       "credit is compared after every block with the model and with an exact-rational oracle.",
     },
+    "C13": {
+        "title": "Only governance changes parameters, and stored parameters stay valid",
+        "model": "Params.v: dparams_valid (SubDistributor.Validate + ValidateSubDistributors), set_params, the seven update handlers",
+        "runs": [{"kind": "params", "profile": "", "n_quick": 300, "n_thorough": 10000, "per_shard": 20}],
+        "preds": ["C13."],
+        "rule": "sequences of 2-11 parameter update messages (whole distributor set, one sub-distributor, one destination share, one burn share, minter "
+                "parameters with and without denomination, vesting denomination) through the real message servers; payloads valid, invalid (share sums "
+                "reaching 1, burn pushing the total over 1, reserved share name, dangling internal account, no sources, malformed address, id gaps, dropped "
+                "current period, empty denomination), or valid only in isolation; authority = gov module address (75%) or another / empty / malformed "
+                "string; pools present in 40% of the cases; after every message the accept/reject decision and the stored parameters of all three "
+                "modules are compared with the Coq model (which transcribes the validation rules) and the stored values are re-validated with the "
+                "modules' own Validate(); non-trivial = at least one update accepted; distinct = distinct message lists",
+        "level_text": "Coq theorems over a model that transcribes the distributor's validation and all seven handlers: a message whose authority is not "
+                      "governance changes nothing; for every sequence of updates the stored parameters satisfy the validation rules, the minter's current "
+                      "period exists and the vesting denomination is valid (induction over the sequence; each handler validates the complete candidate "
+                      "before writing); a rejected update returns the identical world; the vesting denomination cannot change while pools exist. The "
+                      "real message servers run the same sequences; decisions and stored parameters are compared after every message.",
+    },
     "C14": {
         "title": "Failed transfers in the distributor lose nothing and are made up later",
         "model": "Distributor.v: bank with fault oracle (transfer, burn, failed_debit), prepare_source, payout",
